@@ -37,15 +37,7 @@ def check(ctx):
         ctx.check(bool(fars), "T6-timeout", f, "build%s: far = 'next'" % verb, "%s leaves to the next frame" % verb.lower())
         ctx.check(bool(V.call_nodes("addPreact")) and not V.call_nodes(("addBeact", "addEnact", "addReact", "addExact")),
                   "T6-timeout", f, "build%s: added as preact" % verb, "the limit is evaluated with the transitions")
-    mi = ctx.fn("building", "Builder.makeImplicitDirectFramerNeed")
-    sp = [n for n in ast.walk(mi) if isinstance(n, ast.Assign) and dotted(n.targets[0]) == "statePath"]
-    ok = len(sp) == 1 and _fold(sp[0].value) == "framer.me.state.<name>"
-    sf = [n for n in ast.walk(mi) if isinstance(n, ast.Assign) and dotted(n.targets[0]) == "stateField"]
-    ok = ok and len(sf) == 1 and const_str(sf[0].value) == "value"
-    md = [n for n in ast.walk(mi) if isinstance(n, ast.Call) and call_name(n) == "self.makeDirectNeed"]
-    ok = ok and len(md) == 1 and [src(a) for a in md[0].args] == ["statePath", "stateField", "comparison", "goal", "tolerance"]
-    ctx.check(ok, "T6-timeout", mi, "implicit framer need: state framer.me.state.<name> field value, passed to makeDirectNeed in order",
-              "timeout/repeat must test the running framer's own clock share")
+    implicit_need_relative(ctx, "T6-timeout")
     nc = ctx.fn("needing", "Need.Check")
     # by partial evaluation (see C21): what Check returns for the word '>=' is state >= goal, in either orientation
     from ..rules import peval, FuncView as _FV
@@ -64,3 +56,17 @@ def _fold(e):
     if isinstance(e, ast.Name) and e.id == "name":
         return "<name>"
     return None
+
+
+def implicit_need_relative(ctx, rule):
+    """the need behind `timeout` / `repeat` addresses the clock share relative to the framer that runs it (`framer.me.state..`):
+    resolved per framer, so a clone reads its own clock and not its original's"""
+    mi = ctx.fn("building", "Builder.makeImplicitDirectFramerNeed")
+    sp = [n for n in ast.walk(mi) if isinstance(n, ast.Assign) and dotted(n.targets[0]) == "statePath"]
+    ok = len(sp) == 1 and _fold(sp[0].value) == "framer.me.state.<name>"
+    sf = [n for n in ast.walk(mi) if isinstance(n, ast.Assign) and dotted(n.targets[0]) == "stateField"]
+    ok = ok and len(sf) == 1 and const_str(sf[0].value) == "value"
+    md = [n for n in ast.walk(mi) if isinstance(n, ast.Call) and call_name(n) == "self.makeDirectNeed"]
+    ok = ok and len(md) == 1 and [src(a) for a in md[0].args] == ["statePath", "stateField", "comparison", "goal", "tolerance"]
+    ctx.check(ok, rule, mi, "implicit framer need: state framer.me.state.<name> field value, passed to makeDirectNeed in order",
+              "timeout/repeat must test the running framer's own clock share: a path with the framer's name built in is not renamed when the framer is cloned, so every clone would watch the (never running) original's clock")
